@@ -40,18 +40,18 @@ import (
 const memLimit = 3 << 30 // address-space limit of a worker child
 
 type record struct {
-	K     string          `json:"k"`
-	P     []inputs.Mut    `json:"p"`
-	Sw    int             `json:"sw"`
-	Seed  string          `json:"seed"`
-	SC    string          `json:"sc"`
-	Len   int             `json:"len"`
-	Cut   int             `json:"cut"`
-	I     int             `json:"i"` // program index / sweep index
-	Hex   string          `json:"hex,omitempty"`
-	R     []inputs.Result `json:"r"`
-	Reg   []string        `json:"reg,omitempty"`
-	Fam   []string        `json:"fam,omitempty"`
+	K    string          `json:"k"`
+	P    []inputs.Mut    `json:"p"`
+	Sw   int             `json:"sw"`
+	Seed string          `json:"seed"`
+	SC   string          `json:"sc"`
+	Len  int             `json:"len"`
+	Cut  int             `json:"cut"`
+	I    int             `json:"i"` // program index / sweep index
+	Hex  string          `json:"hex,omitempty"`
+	R    []inputs.Result `json:"r"`
+	Reg  []string        `json:"reg,omitempty"`
+	Fam  []string        `json:"fam,omitempty"`
 }
 
 // job: one (program, seed) or one sweep input
@@ -59,7 +59,7 @@ type job struct {
 	prog  *inputs.Program
 	pidx  int
 	seed  *inputs.Seed
-	sweep int // > 0: sweep input number
+	sweep int    // > 0: sweep input number
 	raw   []byte // replay of a recorded input
 	rawSw int
 }
@@ -322,8 +322,8 @@ func readMarker(path string) (int, int) {
 }
 
 type skipSpec struct {
-	Job    int             `json:"job"`
-	Calls  map[int]inputs.Result `json:"calls"` // call index -> injected result
+	Job   int                   `json:"job"`
+	Calls map[int]inputs.Result `json:"calls"` // call index -> injected result
 }
 
 // work: executes jobs[from:], writes one record per applicable job to stdout.
@@ -400,7 +400,6 @@ func work(pl *plan, from int, markerPath string, skip skipSpec) {
 		}
 	}
 }
-
 
 // ---------------------------------------------------------------------------------------
 // summaries (the record format of Trace_Inputs.tla)
